@@ -764,6 +764,9 @@ func suspicious(m map[string]string, input, obs string) bool {
 		return strings.Count(obs, ":503:")+strings.Count(obs, ":504:") > scripted*n
 	case "ids":
 		// samples missing (requests that never got through); duplicate ids are NOT retried: they are the finding
+		if strings.HasPrefix(obs, "res=counter-narrow") {
+			return false // the counter cannot hold the preset value: deterministic
+		}
 		return !strings.Contains(obs, fmt.Sprintf("count=%d ", atoi(m["n"], 100)))
 	}
 	return false
@@ -894,6 +897,9 @@ func httpCase(gun, tgt string, auto bool, el int, nto bool, extra string, reqs [
 	}
 	return s + " reqs=" + strings.Join(reqs, ";")
 }
+
+// refusedTok: the truth token of a request whose dial is refused (round 4: the model predicts the whole error chain)
+var refusedTok = fmt.Sprintf("fe%d", int(syscall.ECONNREFUSED))
 
 var failScripts = []string{"actclose", "actreset", "actgarbage", "actbadhdr", "s200.bx40.actmidclose", "s500.bx64.actmidreset",
 	"s200.bx10.c100", "s404.bx10.c3", "s200.bx20.actnolen", "s200.bempty", "s204.bx10", "s304", "i103.s200.bx5", "i100.s404.bx1", "s101"}
@@ -1029,8 +1035,8 @@ func gen(r *rand.Rand, tier string) []string {
 				// refused
 				uri, path := randURI(r)
 				out = append(out, httpCase(gun, "dead", r.Intn(2) == 0, 1, false, extra, []string{
-					strings.Replace(httpReqTok("dead", uri, path, "s200"), ",r200", ",f", 1),
-					strings.Replace(httpReqTok("", "/x/y", "/x/y", "s200"), ",r200", ",f", 1)}))
+					strings.Replace(httpReqTok("dead", uri, path, "s200"), ",r200", ","+refusedTok, 1),
+					strings.Replace(httpReqTok("", "/x/y", "/x/y", "s200"), ",r200", ","+refusedTok, 1)}))
 			}
 		}
 	}
